@@ -610,7 +610,7 @@ def _cases(ctx):
         for f in sorted(corpus.glob("*.json")):
             yield json.loads(f.read_text())["case"]
     yield from exhaustive_cases()
-    for _ in range(ctx.budget(1200, 25000)):
+    for _ in range(ctx.budget(1200, 15000)):
         yield gen_case(ctx.rng)
 
 
